@@ -79,6 +79,95 @@ def blocked_in_code_under_test(dump, name=""):
 
 
 def collect_races(ck, name, tag, params):
+    reports = []
+    for f in sorted(glob.glob(os.path.join(ck.work, "race_%s.*" % tag))):
+        txt = open(f, errors="replace").read()
+        if "DATA RACE" in txt:
+            reports.append(txt)
+        os.remove(f)
+    seen_sites = set()
+    for txt in [x for rp in reports for x in rp.split("==================") if "DATA RACE" in x]:
+        m = re.search(r"lisk-engine/(pkg/\S+?)\(\)", txt)
+        site = m.group(1) if m else None
+        if site is None:  # a race inside the harness itself says nothing about the property
+            ck.fail_obligation("harness-race:" + name, "race report without a frame of the code under test (harness-internal): inconclusive: " + txt[:500])
+            continue
+        if site in seen_sites:
+            continue
+        seen_sites.add(site)
+        f = dict(kind="schedule", key="c20:%s:race:%s" % (name, site),
+                 what="Go race detector reported a data race in scenario %s at %s" % (name, site),
+                 case=dict(params, race_report=txt[:6000]), expected="no race report", observed="WARNING: DATA RACE",
+                 theorem_or_correspondence="harness/cmd/c20 scenario %s built with -race" % name)
+        f["spec_violated"] = True
+        ck.failures.append(f)
+    ck.extra.setdefault("race_reports", 0)
+    ck.extra["race_reports"] += sum(t.count("DATA RACE") for t in reports)
+
+
+def run_scenario(ck, binp, name, readers, ms, rounds, tag, wd=5000):
+    for f in glob.glob(os.path.join(ck.work, "race_%s.*" % tag)):
+        os.remove(f)
+    env = {"GORACE": "log_path=%s exitcode=0 halt_on_error=0" % os.path.join(ck.work, "race_" + tag)}
+    recs = ck.run_harness(binp, ["-scenario", name, "-readers", str(readers), "-ms", str(ms), "-rounds", str(rounds), "-watchdog", str(wd)],
+                          timeout=900, out_name=tag + ".jsonl", env_extra=env)
+    params = {"scenario": name, "readers": readers, "ms": ms, "rounds": rounds, "seed": ck.seed}
+    if recs is None:
+        return
+    retry = tag.endswith("-retry")
+    for r in recs:
+        if r.get("sub"):
+            continue  # mismatch detail records are attached to the summary failure below
+        ops = int(r.get("ops", 0))
+        if not retry:  # a retry of the same scenario is not counted a second time
+            ck.count(ops)
+        if r.get("ok", False) and ops < (1 if name == "syncfan" else 5):  # syncfan counts whole sync rounds
+            ck.fail_obligation("harness-volume:" + name, "scenario %s completed only %d operations: inconclusive, not a pass" % (name, ops))
+        if ops > 0:
+            ck.nontrivial((name, readers, ms, rounds))
+        if not retry:
+            ck.extra.setdefault("scenarios", []).append({"k": name, "ops": ops, "ok": r.get("ok"), "params": r.get("params")})
+        if not r.get("ok", False) and str(r.get("what", "")).startswith("harness:"):
+            if not retry:
+                ck.notes.append("scenario %s: harness-internal failure (%s), retried" % (name, r.get("what", "")[:120]))
+                collect_races(ck, name, tag, params)  # the first attempt's race reports are not lost
+                return run_scenario(ck, binp, name, readers, ms, rounds, tag + "-retry")
+            ck.fail_obligation("harness-internal:" + name, "scenario %s could not be set up twice (%s): inconclusive, rerun" % (name, r.get("what", "")[:300]))
+            continue
+        # never a VIOLATION from load alone, never lose a real hang: a hang (or a sync round that timed out) is re-run once
+        # with a six times longer watchdog; the ORIGINAL stays a failure unless the re-run passes and the first run's dump
+        # shows no goroutine blocked on a lock/channel inside the code under test
+        timeoutish = r.get("hang") or (name == "syncfan" and "Sync returned" in str(r.get("what", "")))
+        if not r.get("ok", False) and timeoutish and not retry:
+            mark = len(ck.failures)
+            run_scenario(ck, binp, name, readers, ms, rounds, tag + "-retry", wd=30000)
+            retry_ok = len(ck.failures) == mark
+            del ck.failures[mark:]
+            blocked = blocked_in_code_under_test(r.get("dump", ""), name)
+            if retry_ok and not blocked:
+                ck.notes.append("scenario %s: no progress within %d ms (%s), no goroutine blocked in the code under test, re-run with 30 s passed: "
+                                "treated as load" % (name, wd, str(r.get("what", ""))[:80]))
+                ck.extra["hang_unreproduced"] = ck.extra.get("hang_unreproduced", 0) + 1
+                continue
+        if not r.get("ok", False):
+            details = [x for x in recs if x.get("sub")][:3]
+            if r.get("hang"):
+                key, what = "c20:%s:hang" % name, "scenario %s made no progress within the watchdog (deadlock); goroutine dump in the replay" % name
+            elif r.get("panic"):
+                key, what = "c20:%s:panic" % name, "scenario %s: panic in code under test: %s" % (name, r["panic"][:300])
+            elif details:
+                d = details[0]
+                key = "c20:%s:mismatch:%s" % (name, d["sub"])
+                what = "%s returned %s for request %s, sequential answer %s (lost/duplicated items)" % (d["sub"], d.get("got"), d.get("req"), d.get("want"))
+            else:
+                w = r.get("what", "")
+                m = re.match(r"([a-z][a-z-]+): ", w)
+                key, what = "c20:%s:%s" % (name, m.group(1) if m else "check"), "scenario %s failed: %s" % (name, w[:400])
+            f = dict(kind="schedule", key=key, what=what, case=dict(params, record=r, details=details),
+                     expected="no hang, no panic, multiset equality with the sequential answer", observed=r.get("what", ""),
+                     theorem_or_correspondence="harness/cmd/c20 scenario %s (-race) vs Conc/Progress + Conc/SharedAppend" % name)
+            f["spec_violated"] = True
+            ck.failures.append(f)
     collect_races(ck, name, tag, params)
 
 
